@@ -264,7 +264,14 @@ class CommentStyle:
         # '#=' would be a valid single-line comment.
         if cls.can_handle_multi() and text.startswith(cls.MULTI_LINE.start):
             for i, line in enumerate(lines):
-                if line.endswith(cls.MULTI_LINE.end):
+                if cls.MULTI_LINE.end in line:
+                    # The comment ends here. If something follows it on the
+                    # same line, the block cannot be taken out of the text in
+                    # whole lines.
+                    if not line.rstrip().endswith(cls.MULTI_LINE.end):
+                        raise CommentParseError(
+                            "Text follows the comment delimiter"
+                        )
                     end = i
                     break
             else:
